@@ -127,7 +127,7 @@ func (s *Swarm) Ask(ctx context.Context, resp []byte, dst Addr, data p2p.IOVec) 
 	if err != nil {
 		return 0, err
 	}
-	reply, err := c.Send(true, p2p.VecBytes(nil, data))
+	reply, err := c.Ask(ctx, p2p.VecBytes(nil, data))
 	if err != nil {
 		return 0, err
 	}
@@ -166,11 +166,12 @@ func (s *Swarm) getConn(ctx context.Context, addr Addr) (*Conn, error) {
 
 	// try to dial
 	raddr := addr.IP.String() + ":" + strconv.Itoa(int(addr.Port))
-	netConn, err := net.Dial("tcp", raddr)
+	var dialer net.Dialer
+	netConn, err := dialer.DialContext(ctx, "tcp", raddr)
 	if err != nil {
 		return nil, err
 	}
-	c, err = newClient(s, addr, netConn)
+	c, err = newClient(ctx, s, addr, netConn)
 	if err != nil {
 		return nil, err
 	}
